@@ -692,4 +692,81 @@ theorem resizeCore_extLast (b : Int) (hb : 0 ≤ b) (rs : List Reg) (lo hi : Int
     · split
       · exact resizeNth_extLast b hb rs _ _ rfl
       · rw [resizeSpan_extLast b hb rs _ _ _ _ (by omega) hr]
+theorem denLaw_of_isSeg (r : Reg) (hs : isSeg r = true) : DenLaw r := by
+  cases r with
+  | seg h t => exact denLaw_seg h t
+  | many rs => simp [isSeg] at hs
+
+theorem isSeg_extHead (a : Int) (r : Reg) : isSeg (extHead a r) = isSeg r := by
+  cases r with
+  | seg h t => simp only [extHead]; split <;> rfl
+  | many rs => rfl
+
+theorem isSeg_extTail (b : Int) (r : Reg) : isSeg (extTail b r) = isSeg r := by
+  cases r with
+  | seg h t => simp only [extTail]; split <;> rfl
+  | many rs => rfl
+
+theorem all_isSeg_extLast (b : Int) (rs : List Reg) (h : rs.all isSeg = true) :
+    (extLast b rs).all isSeg = true := by
+  induction rs with
+  | nil => rfl
+  | cons a tl ih =>
+    cases tl with
+    | nil => simpa [extLast, isSeg_extTail] using h
+    | cons a2 tl2 =>
+      simp only [List.all_cons, Bool.and_eq_true] at h ih ⊢
+      simp only [extLast, List.all_cons, Bool.and_eq_true]
+      exact ⟨h.1, ih h.2⟩
+
+theorem lenList_extLast (b : Int) (hb : 0 ≤ b) (rs : List Reg) (h : rs.all isSeg = true) (hne : rs ≠ []) :
+    lenList (extLast b rs) = lenList rs + b := by
+  induction rs with
+  | nil => exact absurd rfl hne
+  | cons a tl ih =>
+    cases tl with
+    | nil =>
+      cases a with
+      | seg x y => simp only [extLast, lenList, len_extTail_seg x y b hb]; omega
+      | many l => simp [isSeg] at h
+    | cons a2 tl2 =>
+      simp only [List.all_cons, Bool.and_eq_true] at h
+      have := ih (by simp only [List.all_cons, Bool.and_eq_true]; exact h.2) (by simp)
+      simp only [extLast, lenList] at this ⊢
+      omega
+
+/-- offsets outside a flat region extend its first / last segment outward: for every modifier
+with `lo ≤ hi` (no other bound), the resized region reads the residues `lo + a .. hi + a - 1` of
+the region whose first segment's head is moved outward by `a = max 0 (-lo)` and whose last
+segment's tail is moved outward by `b = max 0 (hi - len)` -/
+theorem resizeFlat_outside (rs : List Reg) (hflat : rs.all isSeg = true) (hne : rs ≠ []) (m : Mod)
+    (lo hi : Int) (hb : bounds m (lenList rs) = (lo, hi)) (h1 : lo ≤ hi) :
+    den (resize (many rs) m) =
+      sliceDen (denList (extLast (Loc.gmax 0 (hi - lenList rs)) (extFirst (Loc.gmax 0 (-lo)) rs)))
+        (lo + Loc.gmax 0 (-lo)) (hi + Loc.gmax 0 (-lo)) := by
+  have ha : 0 ≤ Loc.gmax 0 (-lo) ∧ -lo ≤ Loc.gmax 0 (-lo) := by unfold Loc.gmax; split <;> omega
+  have hbb : 0 ≤ Loc.gmax 0 (hi - lenList rs) ∧ hi - lenList rs ≤ Loc.gmax 0 (hi - lenList rs) := by
+    unfold Loc.gmax; split <;> omega
+  generalize Loc.gmax 0 (-lo) = a at ha ⊢
+  generalize hbe : Loc.gmax 0 (hi - lenList rs) = b at hbb ⊢
+  cases rs with
+  | nil => exact absurd rfl hne
+  | cons r tl =>
+    cases r with
+    | many l => simp [isSeg] at hflat
+    | seg h t =>
+      have hfl1 : (extFirst a (seg h t :: tl)).all isSeg = true := by
+        simp only [extFirst, List.all_cons, isSeg_extHead]
+        simpa using hflat
+      have hfl2 := all_isSeg_extLast b _ hfl1
+      have H : ∀ r ∈ extLast b (extFirst a (seg h t :: tl)), DenLaw r := fun r hr =>
+        denLaw_of_isSeg r (List.all_eq_true.mp hfl2 r hr)
+      have hlen : lenList (extLast b (extFirst a (seg h t :: tl))) = lenList (seg h t :: tl) + a + b := by
+        rw [lenList_extLast b hbb.1 _ hfl1 (by simp [extFirst])]
+        simp only [extFirst, lenList, len_extHead_seg h t a ha.1]
+        omega
+      rw [resize_many_eq, hb]
+      simp only
+      rw [← resizeCore_extFirst h t a tl lo hi ha.1, ← resizeCore_extLast b hbb.1 _ (lo + a) (hi + a)]
+      exact resizeCore_den _ H (extLast_ne_nil b (by simp [extFirst])) _ _ (by omega) (by omega) (by omega)
 end Gts
